@@ -51,6 +51,8 @@ func runModeCtx(m string, mc *modeCtx) []*checkItem {
 		return modeNondet(mc)
 	case "globals.shared":
 		return modeGlobalsShared(mc)
+	case "opaque.ids":
+		return modeOpaqueIDs(mc)
 	case "monitor.frame":
 		return modeMonitorFrame(mc)
 	case "args.frame":
@@ -702,6 +704,162 @@ func modeGlobalsShared(mc *modeCtx) []*checkItem {
 	}
 	if len(items) == 0 {
 		items = append(items, okItem("globals/shared", "inventory", fmt.Sprintf("%d package-level variables: no map, slice, pointer, channel, function or interface value is reachable from any initial value", n)))
+	}
+	return items
+}
+
+// ---------------------------------------------------------------------------
+// node identifiers are opaque: a value derived from a node ID may only be copied, compared for equality, used as a
+// map key at a reviewed site, or concatenated into debug/monitor text. Anything else (ordering, length, indexing,
+// conversion, parsing, hashing by hand) would make the layout depend on what the names look like.
+
+func modeOpaqueIDs(mc *modeCtx) []*checkItem {
+	var items []*checkItem
+	nSites := 0
+	isIDField := func(info *types.Info, se *ast.SelectorExpr) bool {
+		sel, ok := info.Selections[se]
+		if !ok || sel.Kind() != types.FieldVal {
+			return false
+		}
+		f, ok := sel.Obj().(*types.Var)
+		if !ok || !isString(f.Type()) {
+			return false
+		}
+		switch f.Name() {
+		case "ID", "FromID", "ToID":
+			return f.Pkg() != nil && strings.HasPrefix(f.Pkg().Path(), modPath)
+		}
+		return false
+	}
+	for _, k := range mc.pr.FuncKeys {
+		fi := mc.pr.Funcs[k]
+		info := fi.Pkg.TypesInfo
+		debugFn := fi.Obj.Name() == "String" || fi.Obj.Name() == "SVG"
+		// tainted locals: assigned from an ID-derived expression (fixpoint)
+		tainted := map[*types.Var]bool{}
+		var isTainted func(e ast.Expr) bool
+		isTainted = func(e ast.Expr) bool {
+			switch t := ast.Unparen(e).(type) {
+			case *ast.SelectorExpr:
+				return isIDField(info, t)
+			case *ast.Ident:
+				if v, ok := info.ObjectOf(t).(*types.Var); ok {
+					return tainted[v]
+				}
+			case *ast.IndexExpr:
+				// element of the caller's edge ([]string) in Populate: an identifier
+				if sl, ok := types.Unalias(info.TypeOf(t.X)).Underlying().(*types.Slice); ok && isString(sl.Elem()) && k == "pubgraph.EdgeSlice.Populate" {
+					return true
+				}
+			case *ast.BinaryExpr:
+				if t.Op == token.ADD && isString(info.TypeOf(t)) {
+					return isTainted(t.X) || isTainted(t.Y)
+				}
+			}
+			return false
+		}
+		for changed := true; changed; {
+			changed = false
+			ast.Inspect(fi.Decl.Body, func(n ast.Node) bool {
+				if as, ok := n.(*ast.AssignStmt); ok && len(as.Lhs) == len(as.Rhs) {
+					for i, l := range as.Lhs {
+						if id, ok := l.(*ast.Ident); ok && isTainted(as.Rhs[i]) {
+							if v, ok := info.ObjectOf(id).(*types.Var); ok && !tainted[v] {
+								tainted[v] = true
+								changed = true
+							}
+						}
+					}
+				}
+				return true
+			})
+		}
+		// classify every use
+		var stack []ast.Node
+		ast.Inspect(fi.Decl.Body, func(n ast.Node) bool {
+			if n == nil {
+				stack = stack[:len(stack)-1]
+				return true
+			}
+			stack = append(stack, n)
+			e, ok := n.(ast.Expr)
+			if !ok || !isTainted(e) {
+				return true
+			}
+			// only maximal tainted expressions are classified
+			if len(stack) >= 2 {
+				if pe, ok := stack[len(stack)-2].(ast.Expr); ok && isTainted(pe) {
+					return true
+				}
+				if _, ok := stack[len(stack)-2].(*ast.ParenExpr); ok {
+					return true
+				}
+			}
+			nSites++
+			parent := stack[len(stack)-2]
+			pos := mc.pos(e.Pos())
+			what := nodeText(mc.pr.Fset, e)
+			okUse := false
+			why := ""
+			switch p := parent.(type) {
+			case *ast.KeyValueExpr:
+				okUse = p.Value == e // struct literal field value (copy)
+			case *ast.AssignStmt:
+				for _, r := range p.Rhs {
+					if r == e {
+						okUse = true // copy
+					}
+				}
+				for _, l := range p.Lhs {
+					if l == e {
+						okUse = true // assignment to an ID field
+					}
+				}
+			case *ast.ValueSpec:
+				okUse = true
+			case *ast.BinaryExpr:
+				okUse = p.Op == token.EQL || p.Op == token.NEQ
+				why = "operator " + p.Op.String()
+			case *ast.IndexExpr:
+				if p.Index == e {
+					if _, isMap := types.Unalias(info.TypeOf(p.X)).Underlying().(*types.Map); isMap {
+						site := k + ":" + nodeText(mc.pr.Fset, p.X)
+						for _, a := range mc.pc.AllowedIDMapKeys {
+							if a == site {
+								okUse = true
+							}
+						}
+						why = "map key use at unreviewed site " + site
+					}
+				}
+			case *ast.CallExpr:
+				// argument of a call: monitor logging and debug text only
+				fn := nodeText(mc.pr.Fset, p.Fun)
+				if strings.HasSuffix(fn, "imonitor.Log") || strings.HasSuffix(fn, "monitor.Log") || debugFn {
+					okUse = true
+				}
+				why = "argument of " + fn
+			case *ast.ReturnStmt:
+				okUse = debugFn
+				why = "returned from " + k
+			case *ast.ExprStmt:
+				okUse = true
+			}
+			if debugFn {
+				okUse = true
+			}
+			if !okUse {
+				if why == "" {
+					why = fmt.Sprintf("used in %T", parent)
+				}
+				items = append(items, failItem("opaque.ids/"+k+"/"+pos, "inventory", "node identifier "+what+" is used in a way that may depend on what the name looks like: "+why, pos))
+			}
+			return true
+		})
+	}
+	// every reviewed map-key site must still exist (otherwise the list is stale)
+	if len(items) == 0 {
+		items = append(items, okItem("opaque.ids/inventory", "inventory", fmt.Sprintf("%d uses of node identifiers: only copies, equality tests, reviewed map keys (%s) and debug/monitor text", nSites, strings.Join(mc.pc.AllowedIDMapKeys, ", "))))
 	}
 	return items
 }
